@@ -1,7 +1,7 @@
 (* C08 — reliable tubes deliver the written byte stream in order, intact and complete.
    Theorems about Model/Recv.v (tubes/receiver.go, priority_queue.go) and Model/Send.v (tubes/sender.go and the
    timer / window cases of Reliable.send in tubes/reliable.go).  Proofs in Proofs/RecvProofs.v, SendProofs.v. *)
-From Hop Require Import Base Recv Send RecvProofs SendProofs.
+From Hop Require Import Base Recv Send Link RecvProofs SendProofs LinkProofs.
 Open Scope N_scope.
 
 (* ---- unwrapFrameNo: a 32-bit frame number is unwrapped to the true 64-bit number whenever the true
@@ -158,3 +158,84 @@ Theorem c08_emitted_from_buffer : forall (m : nat) (s : sender) (o : sop),
          (snd (fst (sstep_m m s o))).
 Proof. exact emitted_from_buffer. Qed.
 Print Assumptions c08_emitted_from_buffer.
+
+(* ================================================================== completeness of the two ends together
+   Model/Link.v puts the sender (Send.v) and the receiver (Recv.v) of one direction together.
+   `lossy` steps are what may happen while the network misbehaves, in any number and order: the retransmission
+   timer fires and everything it sends is lost or delayed; arbitrary frames of the stream (delayed, duplicated,
+   reordered copies) reach the receiver; an acknowledgement of something the receiver has consumed reaches the
+   sender.  A `round` is one retransmission-timeout period in which the channel delivers: the timer case runs,
+   every frame it transmits reaches the receiver (any order, any multiplicity, mixed with any other frames of the
+   stream), then the receiver's acknowledgement reaches the sender.
+
+   c08_liveness_fair_lossless_rto_rounds_partial.  For every max frame length m > 0 and every sequence of writes
+   followed by Close (fewer than 2^31 - 2 frames), from the state `start`, after ANY finite sequence of lossy
+   steps, for EVERY chain of k rounds:
+     (1) k is at most the number of frames of the stream — each round acknowledges at least one more frame, so
+         there is no infinite chain;
+     (2) if the chain ends with an empty retransmission buffer, then everything is delivered: the receiver has
+         consumed the FIN, what it buffered for the reader is exactly the written bytes, and a read of it reports
+         EOF;
+     (3) otherwise, if the sender's window is not zero (windowSize >= 1), another round is possible: the timer
+         retransmits at least the oldest unacknowledged frame (rtoCounter >= 0 is part of the proved invariant).
+   Hence, once the network delivers what each timeout retransmits, the stream completes within at most
+   (number of unacknowledged frames) timeouts, whatever happened before.
+   What is missing for the unqualified statement (hence _partial): (a) windowSize >= 1 at the end of
+   the chain is a premise: windowSize = uint16(cwndSize) >= 1 is not proved (float reasoning; it is false if
+   cwndSize ever reaches 65536, where the conversion wraps to 0); (b) acknowledgements that
+   acknowledge nothing new are not among the lossy steps: more than 100 of them close the tube (docs/C08.md item
+   4), so liveness genuinely fails under an adversarial stream of duplicate acknowledgements; (c) rounds are
+   whole timeout periods — finer interleavings of ticks, deliveries and acknowledgements inside a period are
+   covered only as far as `lossy` steps may precede any round; (d) real time (that the timer does fire) and the
+   tube life-cycle are outside the model. *)
+Theorem c08_liveness_fair_lossless_rto_rounds_partial :
+  forall (m : nat) (writes : list bytes), (0 < m)%nat ->
+  let all := all_frames m writes true in
+  N.of_nat (List.length all) + 2 < two31 ->
+  forall (y0 : sys) (k : nat) (yk : sys),
+  lossy_star m all (start m writes) y0 -> rounds m all k y0 yk ->
+  (k <= List.length all)%nat /\
+  (s_frames (y_snd yk) = [] -> complete writes [] yk) /\
+  (s_frames (y_snd yk) <> [] -> 1 <= s_wsize (y_snd yk) -> exists y', round m all yk y').
+Proof. intros m writes Hm all Hs y0 k yk. apply (liveness_from_start m Hm writes Hs). Qed.
+Print Assumptions c08_liveness_fair_lossless_rto_rounds_partial.
+
+Theorem c08_tick_sends_when_window_open : forall s : sender,
+  1 <= s_wsize s -> (0 <= s_rtoc s)%Z -> s_frames s <> [] -> tick_sends s.
+Proof. apply (tick_sends_when_window_open 1 (Nat.lt_0_succ 0) []). vm_compute. reflexivity. Qed.
+Print Assumptions c08_tick_sends_when_window_open.
+
+(* non-vacuity: writes [1;2;3] and [4] with m = 2 give the frames 1:[1;2] 2:[3] 3:[4] 4:FIN.  The network first
+   loses three timeouts' worth of retransmissions and delivers frame 3 and a duplicate of it out of order; then
+   two rounds complete the stream (the third lost timeout left rtoCounter = 2, so a timeout retransmits 3 frames). *)
+Definition ex_m : nat := 2.
+Definition ex_writes : list bytes := [[1;2;3]; [4]].
+Definition ex_all : list wire := all_frames ex_m ex_writes true.
+Definition ex_y0 : sys :=
+  let y := start ex_m ex_writes in
+  let s3 := fst (rto_tick (fst (rto_tick (fst (rto_tick (y_snd y)))))) in
+  {| y_snd := s3; y_rcv := deliver_frames (y_rcv y) [(3, [4], false); (3, [4], false)] |}.
+Definition ex_y2 : sys := auto_round ex_m (auto_round ex_m ex_y0 5000000) 5000000.
+
+Example c08_liveness_example :
+  N.of_nat (List.length ex_all) + 2 < two31 /\
+  lossy_star ex_m ex_all (start ex_m ex_writes) ex_y0 /\
+  rounds ex_m ex_all 2 ex_y0 ex_y2 /\
+  s_frames (y_snd ex_y2) = [] /\ r_closed (y_rcv ex_y2) = true /\ r_buf (y_rcv ex_y2) = [1;2;3;4].
+Proof.
+  split; [vm_compute; reflexivity|]. split; [|split].
+  { unfold ex_y0. destruct (start ex_m ex_writes) as [s r] eqn:E. cbn [y_snd y_rcv].
+    apply lossy_step with {| y_snd := fst (rto_tick s); y_rcv := r |}; [apply lossy_tick|].
+    apply lossy_step with {| y_snd := fst (rto_tick (fst (rto_tick s))); y_rcv := r |}; [apply lossy_tick|].
+    apply lossy_step with {| y_snd := fst (rto_tick (fst (rto_tick (fst (rto_tick s))))); y_rcv := r |}; [apply lossy_tick|].
+    eapply lossy_step; [|apply lossy_refl]. apply lossy_deliver.
+    intros x [H|[H|[]]]; subst x; vm_compute; auto 10. }
+  { unfold ex_y2.
+    assert (R: forall y, s_frames (y_snd y) <> [] -> tick_sends (y_snd y) ->
+               (forall e, In e (snd (rto_tick (y_snd y))) -> In (sf_proj (snd e)) ex_all) ->
+               round ex_m ex_all y (auto_round ex_m y 5000000)) by (intros; apply auto_round_round; auto).
+    eapply rounds_S; [apply R|eapply rounds_S; [apply R|apply rounds_O]];
+      try (vm_compute; discriminate); try (vm_compute; reflexivity);
+      try (vm_compute; intros e He; repeat (destruct He as [He|He]; [subst e; cbn; auto 10|]); destruct He). }
+  vm_compute. repeat split; reflexivity.
+Qed.
